@@ -5,6 +5,8 @@ import GenlmModel.Proofs.Tab
 import GenlmModel.Proofs.Fast
 import GenlmModel.Proofs.IncCky
 import GenlmModel.Proofs.EarleyQ
+import GenlmModel.Proofs.EndToEnd
+import GenlmModel.Proofs.GapMaterialize
 /-! # C02 — every parser returns the derivation-sum weight of a string
 Headline statements only (proofs live in `Proofs/`).  `WN G n X x` is the sum of the weights of the
 derivation trees of height ≤ n of `x` from `X`; all statements hold in EVERY commutative semiring
@@ -71,4 +73,29 @@ alias earley_priority_schedule_ok := Genlm.EarleyAux.schedule_ok
 /-- for such grammars the derivation sum is a finite sum, reached at level |x|·M + 1 -/
 alias derivation_sum_finite := Genlm.WN_stable
 
+
+/-! ## END TO END at the limit (ℝ≥0∞): parser model ∘ model of its preprocessing = sum over ALL derivation trees `WL G S x`,
+for EVERY grammar (nullary rules, unary cycles, any arity), every string incl. the empty one -/
+/-- direct evaluation `cfg(x)`: CKY on the model of `cnf()` (true null weights / closures) -/
+alias cfg_call_is_derivation_sum := Genlm.cfg_call_is_WL
+/-- `IncrementalCKY(cfg.cnf)(x)` -/
+alias incremental_cky_is_derivation_sum := Genlm.inc_cky_call_is_WL
+/-- Earley's preprocessing `nullaryremove(binarize=False).unarycycleremove()` establishes the parser's preconditions and preserves WL … -/
+alias earley_preprocessing_correct := Genlm.nullaryRemoveL_correct
+alias earley_preprocessing_acyclic := Genlm.ucycle_acyc_E1
+/-- … the order the code computes (buckets of the transposed unary graph) is an admissible topological order … -/
+alias earley_order_is_topological := Genlm.topoOrder_of_buckets_E1
+/-- … so `Earley(cfg)(x)` (priority-queue agenda, any tie-breaking), renumbering included, is the derivation sum -/
+alias earley_call_is_derivation_sum := Genlm.earley_call_as_run_is_WL
+alias earley_call_is_derivation_sum_any_order := Genlm.earley_call_is_WL
+alias earley_empty_string := Genlm.earley_call_nil_is_WL
+/-- all parsers agree -/
+alias parsers_agree := Genlm.parsers_agree_as_run
+
+/-- tabulating the language up to a length bound (`materialize`: bounded-height enumeration of the CNF grammar, then the length
+filter) lists exactly the strings of at most that length with non-zero weight, with these weights — for every grammar -/
+alias materialize_lists_exactly_nonzero_strings := Genlm.materialize_cnfL
+alias materialize_on_cnf := Genlm.mem_materializeOf
+alias materialize_general_semiring := Genlm.mem_materializeOf_general
+alias language_values := Genlm.wlook_language
 end Genlm.Props.C02
